@@ -300,7 +300,8 @@ func (p *poller) readWriteLoop() {
 										_ = c.closeWithError(err)
 										break
 									}
-									if n < bufLen {
+									// a short read says nothing about the next datagram.
+									if n < bufLen && !c.IsUDP() {
 										break
 									}
 								}
